@@ -431,4 +431,59 @@ theorem c13_sync_atomic (s : State) (id : Nat) (d : Dev) (h : s.devices.get id =
   | none => exact ⟨s.servers, rfl⟩
   | some m => exact ⟨[], rfl⟩
 
+/-! ### Sequential explanation of a parallel burst
+
+The parallel-burst job writes a burst as "the reports in the order of the server's own log, then every
+report that left no trace". That is a legitimate sequential history because a report which has no
+effect on its slot keeps having none however many other reports reach the slot afterwards. -/
+
+/-- A report has no effect on a slot exactly when the slot is banned or already holds that very report. -/
+theorem c13_noeffect_iff (cap : Nat) (slot r : Report) :
+    slotStep cap slot r = slot ↔ (slot.p = 1 ∨ slot = r) := by
+  constructor
+  · intro h
+    by_cases hb : slot.p = 1
+    · exact Or.inl hb
+    · by_cases he : slot = r
+      · exact Or.inr he
+      · exfalso
+        simp only [slotStep, hb, he, if_false] at h
+        by_cases h0 : slot.p = 0
+        · simp only [h0, if_true] at h
+          split at h
+          · have := congrArg Report.p h; simp at this; omega
+          · exact he h.symm
+        · simp only [h0, if_false] at h
+          split at h
+          · have := congrArg Report.p h; simp at this; exact hb this.symm
+          · have := congrArg Report.p h; simp at this; exact hb this.symm
+  · rintro (hb | he)
+    · exact c02h_slotStep_banned cap slot r hb
+    · subst he; simp [slotStep]
+
+/-- ... and it stays without effect after any further reports for that slot. -/
+theorem c13_noeffect_stable (cap : Nat) (slot r : Report) (rs : List Report) (hr : ValidP r)
+    (h : slotStep cap slot r = slot) :
+    slotStep cap (rs.foldl (slotStep cap) slot) r = rs.foldl (slotStep cap) slot := by
+  rw [c13_noeffect_iff] at h ⊢
+  rcases h with hb | he
+  · left; rw [c02h_foldl_banned cap slot rs hb]; exact hb
+  · subst he
+    have hp := c02h_foldl_stored cap slot rs hr
+    by_cases hall : rs.all (fun x => decide (x = slot)) = true
+    · right
+      clear hp
+      induction rs with
+      | nil => rfl
+      | cons x xs ih =>
+        simp only [List.all_cons, Bool.and_eq_true, decide_eq_true_eq] at hall
+        obtain ⟨hx, hxs⟩ := hall
+        subst hx
+        rw [List.foldl_cons]
+        have : slotStep cap x x = x := by simp [slotStep]
+        rw [this]
+        exact ih hxs
+    · left
+      rw [hp]; simp [hall]
+
 end Gca.Srv
